@@ -102,6 +102,11 @@ Theorem C08_sigusr1_order_irrelevant_when_loader_succeeds :
 Proof. exact sigusr1_order_irrelevant_when_loaded. Qed.
 Print Assumptions C08_sigusr1_order_irrelevant_when_loader_succeeds.
 
+Example C08_sigusr1_order_irrelevant_nonvacuous :
+  loader_fails (mkcfg 2 [EOn 1; EBad] [AEph 1]) = false /\
+  loader_fails {| c_id := 2; c_parse := PSyntax; c_effs := []; c_addrs := [AEph 1] |} = false.
+Proof. split; reflexivity. Qed.
+
 (* ---- 4. bounded time: over ALL histories no attempt ever blocks, and the htpasswd mutex is free
         after every history (full; this is the clause the fix ee9fbaa made true) ---- *)
 Theorem C08_no_attempt_ever_hangs :
@@ -212,6 +217,15 @@ Theorem C08_attempt_ignores_rollers_and_workers :
   exists g2', attempt m step e c g2 = (r, g2') /\ same_but_leaks g1' g2' /\ cache_ok g2'.
 Proof. exact attempt_ignores_leaks. Qed.
 Print Assumptions C08_attempt_ignores_rollers_and_workers.
+
+Example C08_attempt_ignores_rollers_and_workers_nonvacuous :
+  exists g', attempt Load 1 [] (mkcfg 1 [ELog 1 1 true; EProxy] [ABusy]) g0 = (RErr, g') /\
+             cache_ok g0 /\ cache_ok g' /\ same_but_leaks g0 g' /\ g' <> g0 /\
+             fst (attempt Load 2 [] (mkcfg 2 [ELog 1 50 true] [AEph 1]) g') = ROk.
+Proof.
+  eexists. split; [vm_compute; reflexivity|]. split; [intros f h; discriminate|]. split; [intros f h; discriminate|].
+  split; [repeat split; reflexivity|]. split; [discriminate|vm_compute; reflexivity].
+Qed.
 
 (* Strongest true statement: the ENTIRE state except what the (transparent) cache holds is unchanged by a
    failed attempt that does not REACH the remaining leak.  [reached c] is the part of the configuration an
